@@ -55,7 +55,7 @@ def instances(tier, seed):
         for mi, s in enumerate(models()):
             for g in grids:
                 Ns = [2, 3] if tier == 'quick' else [1, 2, 3]
-                for N in Ns[: (1 if tier == 'quick' else 3)] if g[0] != 'function' else [3]:
+                for N in Ns[: (1 if tier == 'quick' else 3)] if g[0] != 'function' else ([2] if method == 'DC' else [3]):
                     M = [1, 2][n % 2]
                     h = hz[n % len(hz)]
                     if method == 'DC':
